@@ -424,7 +424,7 @@ def _run_observation_deprecated(
         if observation.with_dask:
             dataset_list = db.from_sequence(lst).map(_apply_pipeline).compute()
         else:
-            dataset_list = list(map(_apply_pipeline, tqdm(lst)))
+            dataset_list = [_apply_pipeline(el) for el in tqdm(lst)]
 
         # prepare lists for to-be-merged datasets
         parameters: list[list[xr.Dataset]] = [
@@ -501,7 +501,7 @@ def _run_observation_deprecated(
         if observation.with_dask:
             dataset_list = db.from_sequence(lst).map(_apply_pipeline).compute()
         else:
-            dataset_list = list(map(_apply_pipeline, tqdm(lst)))
+            dataset_list = [_apply_pipeline(el) for el in tqdm(lst)]
 
         # prepare lists/dictionaries for to-be-merged datasets
         parameters = [[] for _ in range(len(observation.parameter_mode.enabled_steps))]
@@ -584,7 +584,7 @@ def _run_observation_deprecated(
         if observation.with_dask:
             dataset_list = db.from_sequence(lst).map(_apply_pipeline).compute()
         else:
-            dataset_list = list(map(_apply_pipeline, tqdm(lst)))
+            dataset_list = [_apply_pipeline(el) for el in tqdm(lst)]
 
         # prepare lists for to-be-merged datasets
         logs = []
